@@ -71,6 +71,9 @@ def field_assignment(draw, d, f, force=None, legal_only=False):
         dlo, dhi = b if b else (lo, hi)
         classes = ["in_range", "in_range", "range_min", "range_max", "half_step", "absent", "rep_min", "rep_max", "beyond_hi", "beyond_lo",
                    "far_hi", "far_lo", "between"]
+        edges = gen.number_classes(f).get("magnitude_edge") if t in ("NUMBER", "PGN", "DURATION", "TIME") else None
+        if edges:
+            classes += ["magnitude_edge", "magnitude_edge_ulp"]
         if not (f.signed and f.offset is None):
             classes.append("negative")
         if t in ("TIME",):
@@ -85,6 +88,12 @@ def field_assignment(draw, d, f, force=None, legal_only=False):
             a, bb = (dlo, dhi) if cls == "in_range" else (lo, hi)
             r = Fraction(draw(st.integers(a, bb)))
             exp = ("num",) if dlo <= r <= dhi else ("either",)
+        elif cls in ("magnitude_edge", "magnitude_edge_ulp"):
+            # raws / values at 2^k, 10^k (+-1): where float arithmetic changes exponent; "_ulp": the neighbouring float of that value
+            u = draw(st.sampled_from(edges[1]))
+            if f.signed and f.offset is None and u >> (n - 1):
+                u -= 1 << n
+            r, exp = Fraction(u), ("num",) if dlo <= u <= dhi else ("either",)
         elif cls == "range_min":
             r, exp = Fraction(dlo), ("num",)
         elif cls == "range_max":
@@ -126,6 +135,9 @@ def field_assignment(draw, d, f, force=None, legal_only=False):
             target = None
         else:
             val = num_value(f, r)
+            if cls == "magnitude_edge_ulp" and isinstance(val, float):
+                import math
+                val = math.nextafter(val, math.inf if draw(st.booleans()) else -math.inf)
             target = Fraction(val)      # what the caller actually passed (a float)
             # a float cannot always carry the exact step; decide must-reject on what was actually passed
             if exp == ("reject",):
@@ -198,7 +210,7 @@ def field_assignment(draw, d, f, force=None, legal_only=False):
     raise AssertionError(t)
 
 
-LEGAL = ("in_range", "range_min", "range_max", "half_step", "absent", "rep_min", "rep_max", "between", "by_name", "time_obj", "date_obj",
+LEGAL = ("magnitude_edge", "magnitude_edge_ulp", "in_range", "range_min", "range_max", "half_step", "absent", "rep_min", "rep_max", "between", "by_name", "time_obj", "date_obj",
          "zero", "all_ones")
 
 
